@@ -8,7 +8,7 @@ import re
 from ..cfg import build_cfg, calls_in, node_calls
 from ..core import Ctx, property_info, rule
 from ..model import AnalysisError, FuncInfo, walk_no_nested
-from ..q import A, L, value_sources, func_text, returned_sort_keys, sort_key_attr, value_texts, reach_table, leaves_at, node_containing, asrc, call_name_of, control_deps, family, flows, none_cond, is_self_attr, kwarg, names_in, return_values, stores, unparse
+from ..q import A, L, call_param, value_sources, func_text, returned_sort_keys, sort_key_attr, value_texts, reach_table, leaves_at, node_containing, asrc, call_name_of, control_deps, family, flows, none_cond, is_self_attr, kwarg, names_in, return_values, stores, unparse
 from ._schedule import processor_table, step_sequence
 
 SCOPE = ("xsdata.codegen", "xsdata.formats.dataclass.generator", "xsdata.formats.dataclass.filters", "xsdata.formats.mixins", "xsdata.models.xsd", "xsdata.models.config",
@@ -300,7 +300,8 @@ def id_discipline(ctx: Ctx) -> None:
     ctx.ob("find_next_sequence_number takes the maximum over base_attrs (bases are finalised, i.e. renumbered, first)", any(unparse(c.func) == "self.base_attrs" for c in calls_in(g.node)), at=g, construct="max over renumbered bases", msg="max over raw ids")
     cc = ctx.repo.func("xsdata.codegen.handlers.create_compound_fields:CreateCompoundFields.build_attr_choice")
     clones = [c for c in calls_in(cc.node) if isinstance(c.func, ast.Attribute) and c.func.attr == "clone" and "restrictions" in unparse(c.func.value)]
-    ok = len(clones) == 1 and isinstance(kwarg(clones[0], "sequence"), ast.Constant) and kwarg(clones[0], "sequence").value is None
+    seq_arg = call_param(ctx, cc, clones[0], "sequence") if len(clones) == 1 else None
+    ok = len(clones) == 1 and seq_arg is not None and any(isinstance(x, ast.Constant) and x.value is None for x in leaves_at(cc, clones[0], seq_arg))
     ctx.ob("attrs moved into a compound field's choices get sequence=None (choices are not renumbered, and their sequence is emitted)", ok, at=cc, node=clones[0] if clones else None, construct="choice sequence cleared",
            msg="the raw id() sequence number of a choice survives to Filters.field_choices and is rendered as \"sequence\": <address> - different on every run")
     pm = ctx.repo.func("xsdata.codegen.handlers.process_mixed_content_class:ProcessMixedContentClass.process")
@@ -414,7 +415,11 @@ def sorted_source_listings(ctx: Ctx) -> None:
         """The value is the sorted result of resolve_source(...): `sorted(resolve_source(..))`, or a list built from it and sorted in
         place (`.sort()` on every path, after its last assignment) - through temporaries."""
         fl = flows(tr, n, e)
-        from_listing = lambda x: any(isinstance(y, ast.Call) and call_name_of(y) == "resolve_source" for y in ast.walk(x))  # noqa: E731
+        def from_listing(x: ast.expr) -> bool:
+            if any(isinstance(y, ast.Call) and call_name_of(y) == "resolve_source" for y in ast.walk(x)):
+                return True
+            return any(isinstance(y, ast.Call) and call_name_of(y) == "resolve_source" for src in value_sources(tr, n, x) for y in ast.walk(src))
+
         if fl and all(isinstance(leaf, ast.Call) and call_name_of(leaf) == "sorted" and from_listing(leaf) for leaf, _ in fl):
             return True
         if isinstance(e, ast.Name):
@@ -533,7 +538,16 @@ def routes_agree(ctx: Ctx) -> None:
         ctor_validators = {func_text(post, c) for c in calls_in(post.node) if call_name_of(c) == "validate"}
         gu = build_cfg(upd_m.node)
         applied = [n for n in gu.stmts() if any(func_text(upd_m, c) == "objects.update" for c in node_calls(n))]
-        after = {func_text(upd_m, c) for n in gu.stmts() for c in node_calls(n) if call_name_of(c) == "validate" and applied and all(gu.must_pass(a.id, gu.exit, [n.id], normal_only=True) for a in applied)}
+        after: set[str] = set()
+        by_text: dict[str, list[int]] = {}
+        for n in gu.stmts():
+            for c in node_calls(n):
+                if call_name_of(c) == "validate" and isinstance(c.func, ast.Attribute):
+                    for t in value_texts(upd_m, n, c.func.value):
+                        by_text.setdefault(f"{t}.validate", []).append(n.id)
+        for t, ids in by_text.items():
+            if applied and all(gu.must_pass(a.id, gu.exit, ids, normal_only=True) for a in applied):
+                after.add(t)
         for v in sorted(ctor_validators):
             ctx.ob(f"GeneratorOutput.update re-runs {v}() - the conflict resolution the constructor route (__post_init__) applies", v in after, at=upd_m, construct=f"late options {v}",
                    msg="options given on the command line are applied through update() and skip this validation, while the same options in a config file / constructor pass it: "
